@@ -106,6 +106,10 @@ def sigdiff(a, b, where="root"):
         for k in sorted(da):
             if da[k] != db[k]:
                 return sigdiff(da[k], db[k], k)
+        if a[3] is not None and b[3] is not None:
+            # same parameters, different producing task: look inside the producer
+            inner = sigdiff(a[3], b[3], where)
+            return inner if inner else f"{where}:producing-task"
         return f"{where}:producing-task"
     if kind == "list":
         if len(a[1]) != len(b[1]):
@@ -125,7 +129,7 @@ def sigdiff(a, b, where="root"):
             if x != y:
                 return sigdiff(x, y, where + "{}")
     if kind in ("task", "taskself"):
-        return sigdiff(a[1], b[1], where + ":producer")
+        return sigdiff(a[1], b[1], where)
     return f"{where}:{kind}"
 
 
